@@ -13,7 +13,7 @@ C = {
  'C08': ("bounded exhaustive grid over (|L|,|R|, gates, fill, scalars, mode) + proptest over structurally arbitrary proof objects, raw and mutated byte strings, every public decode path (compressed / uncompressed, checked / unchecked, containers: empty, Option, nested, up to 1001 members with a 9000-round member under the heap bound) (+ libFuzzer c08_decode_verify with ASan in the thorough tier); oracle = no panic (catch_unwind), no death of the process (case-in-progress breadcrumbs traced back by ./check), Ok/Err only, decode heap <= 64*len+64KiB, verify heap <= 16MiB+4KiB*len",
          "Robustness exploration: exhaustive length grid and generated hostile inputs against decode / verify / batch_verify with a panic and heap oracle.",
          "Trusted: catch_unwind sees every panic in the panic=unwind harness build (debug assertions and overflow checks on); counting global allocator.", "3/C08"),
- 'C11': ("property-based testing: round-trip / size-law / verdict-equality over proofs of generated programs; exhaustive strict-prefix enumeration; crafted single-field invalid encodings at every scalar and point slot, cancelling small-order pairs, uncompressed mode round trip and off-curve points in that mode, k = 12/13 (+ libFuzzer c11_roundtrip in the thorough tier)",
+ 'C11': ("property-based testing: round-trip / size-law / verdict-equality over proofs of generated programs; exhaustive strict-prefix enumeration; crafted single-field invalid encodings at every scalar and point slot, cancelling small-order pairs, uncompressed mode round trip and off-curve points in that mode, k = 12/13, hostile counts, unequal lists, zorro points with chosen boundary y-coordinates (+ libFuzzer c11_roundtrip in the thorough tier)",
          "Round-trip and rejection checks over generated proofs (k=0..8), exhaustive prefixes for a subset, and crafted invalid encodings (non-canonical scalars, off-curve, invalid flags, small-order offsets) at every position.",
          "Trusted: the mirror layout (11 points, 3 scalars, two length-prefixed lists, 2 scalars); candidates are confirmed invalid independently before asking the proof decoder.", "3/C11"),
  'C12': ("model-based property testing: histories of new/increase_capacity/serialization round-trips compared with a history-free reference derivation; distinctness, subgroup, pinned digests, cross-process digest, 300 / 65 600 parties, views consumed through nth / skip / step_by / count / last, clone_from, one step beyond 2^17 generators",
